@@ -88,6 +88,11 @@ func (lb *LoadBalancer) WaitUntilHealthy(timeout time.Duration) error {
 		return fmt.Errorf("%w (%s)", ErrorTargetFailedToBecomeHealthy, timeout)
 	}
 
+	// The health check goroutines signal that their target became healthy
+	// before they notify us to rebuild the healthy list, so make sure the
+	// list includes every target we waited for before reporting success.
+	lb.updateHealthyTargets()
+
 	return nil
 }
 
